@@ -90,7 +90,9 @@ type Must struct {
 	P     *Program
 	Pred  func(ssa.Instruction) bool
 	Depth int
-	memo  map[*ssa.Function]int // 0 unknown, 1 in progress, 2 yes, 3 no
+	// FollowGo: `go f()` counts as reaching f's body (the work is handed to a goroutine that always does it)
+	FollowGo bool
+	memo     map[*ssa.Function]int // 0 unknown, 1 in progress, 2 yes, 3 no
 }
 
 func NewMust(p *Program, depth int, pred func(ssa.Instruction) bool) *Must {
@@ -109,6 +111,10 @@ func (m *Must) instr(in ssa.Instruction, depth int) bool {
 	}
 	switch in.(type) {
 	case *ssa.Call, *ssa.Defer:
+	case *ssa.Go:
+		if !m.FollowGo {
+			return false
+		}
 	default:
 		return false
 	}
